@@ -84,6 +84,22 @@ claim("C14",
       "Coq proof (case analysis of the readers, fold invariant over commit with an erase-histories abstraction) + audit-event trace vs model op list + full before/after snapshots",
       "DESIGN.md 3 C14")
 
+claim("C17",
+      "Theorems about the rename-detection loop the model executes (create -dr), for every history, session and tree: a recorded path is taken off the missing list ONLY when some new path carries the digest the missing path is identified by -- the first entry ever recorded for it -- compared in that entry's own format, re-hashing the new file in the old format when the new record lacks it (soundness of one comparison and, by a fold invariant, of the whole double loop); a successful comparison stores the old path as previous path on exactly the new record and marks the path found; a record with a previous path is indexed under both names, which is what later runs use to look it up. Tied to the code by lockstep runs (1-3 rounds of 1-4 simultaneous renames / moves between directories incl. new folders and unchanged base names, unrelated new files, create -dr with the same or other formats, then verify / diff / create, altering a renamed file, and the same trees without -dr) and an oracle on <previousPath>, exit codes and the missing / new reports.",
+      "PARTIAL: completeness (every renamed file of a tree with pairwise distinct contents IS matched) and the acceptance by the following verify / diff / create are carried by the correspondence and the oracle, not by a theorem. The iteration order over Python sets is modelled as sorted order; it only matters outside the property's domain (identical contents).",
+      "Coq proof (case analysis of one comparison, fold invariant over the double loop) + lockstep correspondence + previous-path oracle",
+      "DESIGN.md 3 C17")
+claim("C18",
+      "Theorems for every history: the flattened record list holds each path at most once, no directory record and no failed digest (fold invariant over the triple loop of flatten_history); flatten returns the source tree unchanged and performs no write in it. Tied to the code by lockstep runs over flat histories of 2-7 generations (changing format sets, failed entries, -sf and -n generations, added files; absolute and relative destination): the model's flattened records vs the packing list read with an independent XML reader; oracle: one record per file path ever recorded, per format the earliest non-failed digest, no directory records, process type flatten, source byte-identical, verify -pl exits 0 on the unchanged and non-zero on an altered tree.",
+      "PARTIAL: 'exactly the earliest non-failed digest per format' and completeness over all recorded paths are established by correspondence + oracle only; verify -pl is not in the model (oracle only).",
+      "Coq proof (fold invariants) + lockstep correspondence + independent packing-list oracle",
+      "DESIGN.md 3 C18")
+claim("C19",
+      "Theorems: info's lines for a history start with exactly its generations in load order (ascending 1..n by C06) after the history header; the exit code is 30 (obligation on the regenerated constant) exactly when the folder has no generation; info -sf prints the history header, the file line and then exactly one line per digest recorded for the file in that history -- a line (generation, format, digest, action) is printed iff some generation's record for the path holds that entry, and the number of lines is the total number of recorded entries -- and exits 30 without history. Tied to the code by lockstep runs over histories with 1-4 root generations, failed / new-format entries, -sf generations and nested histories up to four levels deep; the oracle compares the parsed output (histories each exactly once, generations ascending, creation dates, per-digest lines of the nearest enclosing history) with the manifests read independently.",
+      "PARTIAL: the text layout of the output and the creation dates are not modelled (oracle only); the recursion over child histories (each nested history printed once) is checked by correspondence + oracle.",
+      "Coq proof (unfolding of the info functions, list characterisations) + regenerated exit code + lockstep correspondence + output oracle",
+      "DESIGN.md 3 C19")
+
 PENDING = "check under construction (planned: proof + correspondence, see DESIGN.md section 3)"
 
 
